@@ -6,6 +6,8 @@ package main
 // replica rebuilt by replaying the history.
 
 import (
+	"github.com/massnetorg/mass-core/pocec"
+	"encoding/hex"
 	"errors"
 	"fmt"
 	"sort"
@@ -432,9 +434,19 @@ func (e *env) faultHistory(pub int, history []string) {
 		for _, x := range exps {
 			r := e.replica(pub, prefix)
 			live := r.liveDump()
+			keysBefore := r.listedKeys()
 			r.c.reset(x.mode, x.at)
 			out, crashed := r.runOp(op)
 			fired := r.c.fired
+			// C05: keys this operation handed out (it reported success and the running instance lists them)
+			var handedOut [][]byte
+			if opk := strings.Fields(op)[0]; !crashed && strings.HasPrefix(out, "keys ") && (opk == "next" || opk == "genpub") {
+				for k, v := range r.listedKeys() {
+					if _, was := keysBefore[k]; !was {
+						handedOut = append(handedOut, v)
+					}
+				}
+			}
 			kind := ""
 			if x.mode == "failwrite" || x.mode == "crashwrite" {
 				if x.at < len(kinds) {
@@ -449,6 +461,22 @@ func (e *env) faultHistory(pub int, history []string) {
 				liveAfter = r.liveDump()
 			}
 			obs := r.reopenObs()
+			if len(handedOut) > 0 && r.kmc != nil && !strings.HasPrefix(obs, "UNOPENABLE") {
+				h.Res.OracleEvals++
+				if err := r.kmc.Unlock([]byte(r.passes[r.priv])); err == nil {
+					for _, kb := range handedOut {
+						pk, _ := pocec.ParsePubKey(kb, pocec.S256())
+						digest := make([]byte, 32)
+						copy(digest, kb)
+						sig, err := r.kmc.SignHash(pk, digest)
+						if err != nil || !sig.Verify(digest, pk) {
+							h.FailWith("C05:issued-key-cannot-sign-after-restart", fmt.Sprintf("%s: the operation reported %q and handed out public key %x, but after a restart and Unlock signing for that key fails (%v)", desc, out, kb[:8], err), replay)
+							break
+						}
+					}
+					r.kmc.Lock()
+				}
+			}
 			r.destroy()
 			modelKind := x.mode
 			line := fmt.Sprintf("fault %s %d : %s", modelKind, x.at, mop)
@@ -480,6 +508,21 @@ func (e *env) faultHistory(pub int, history []string) {
 		}
 		h.Emit(mop, outPost) // the model advances along the fault-free history
 	}
+}
+
+// listedKeys: compressed public key (hex) of every address the running instance lists
+func (e *env) listedKeys() map[string][]byte {
+	m := map[string][]byte{}
+	if e.kmc == nil {
+		return m
+	}
+	_, ks := e.kmc.VerifDump()
+	for _, k := range ks {
+		for _, a := range k.Addrs {
+			m[hex.EncodeToString(a.PubKey)] = a.PubKey
+		}
+	}
+	return m
 }
 
 func stripPass(obs string) string {
@@ -571,6 +614,14 @@ func runFaults(e *env) {
 		// the same kinds of operation on an UNLOCKED wallet (a failed operation must also leave the keys usable as before)
 		{"new p1w s0 -", "next 0 0 2", "unlock p1w", "next 0 1 1", "remark 0 72656e616d6564", "genpub -", "delete 0 p1w"},
 		{"new p1w s0 -", "new p1w s1 78", "unlock p1w", "chpriv p1w p2w", "export 0 p2w", "delete 1 p2w", "import 0 p2w - none", "lock"},
+	}
+	if e.focus == "C05" {
+		// C05 runs the key-issuing part: a key handed out by an operation that hit a storage fault must still sign after a restart
+		fixed = [][]string{
+			{"new p1w s0 -", "next 0 0 2", "genpub -", "next 0 1 1", "unlock p1w", "genpub -", "next 0 0 1", "next 0 1 2"},
+			// (with two keystores the owner of a plot key is Go's map order, which replicas do not share: address requests only)
+			{"new p1w s0 -", "new p1w s1 78", "next 0 0 1", "next 1 0 2", "next 1 1 1"},
+		}
 	}
 	if e.focus == "C03" {
 		// C03 runs the passphrase part only: faults inside a passphrase change over two and three keystores
